@@ -55,6 +55,11 @@ Inside(c) == LET t == Touched(c) IN
              /\ t.val \subseteq Bytes(c.valbuf)
              /\ t.next \subseteq Bytes(c.nextbuf)
 
+(* the possible CPUs of a host as the kernel publishes them: a list of ranges <<lo, hi>> (cpulist
+   "0-3,8-11" = <<<<0, 3>>, <<8, 11>>>>); every CPU of every range counts *)
+RECURSIVE CountCpus(_, _)
+CountCpus(ranges, i) == IF i > Len(ranges) THEN 0
+                        ELSE (ranges[i][2] - ranges[i][1] + 1) + CountCpus(ranges, i + 1)
 BInit(n) == maps = <<>> /\ ncpu = n
 CreateMap(fd, type, ks, vs, max) ==
     /\ fd \notin DOMAIN maps
